@@ -4,11 +4,11 @@ from hypothesis import strategies as st
 from pv.gen.base import (ROLE_POOL, VARS, alignments, chance, fy, pick, strings, symbols)
 from pv.ref.role import roles_for
 
-CONCEPTS = ['alpha', 'beta', 'b', 'i', '"a string"', '1', 'x-01', '"a~b"', 'c', 'want-01', '"(x / y)"', 'a', '_', '0',
+CONCEPTS = ['\u0130stanbul', 'None', 'e\u0301t\u00e9', '\u212bngstr\u00f6m', 'C#', '1975', 'alpha', 'beta', 'b', 'i', '"a string"', '1', 'x-01', '"a~b"', 'c', 'want-01', '"(x / y)"', 'a', '_', '0',
             '\u00e9t\u00e9', '42nd', '---', '"\\"q\\""', '"#"', 'k']
-CONSTS = ['-', '_', '_2', '"C:\\dir"', '"it\\\'s \\d+"', '5', '12345678901234567890', '"' + 'long string ' * 12 + '"', 'sym' * 20, '1.5', '"str"', '"a b(c)"', 'sym', '+', '"~1"', 'imperative', '0', '0.0', '"x : y"', '"a/b"',
+CONSTS = ['None', 'null', 'C#', 'issue#12', '"he said \\"~5 km\\" twice"', 'e\u0301', '1e21', '1.50', '-0', '1E5', '00', 'n\ufeffo', '\ufeffKim', '-', '_', '_2', '"C:\\dir"', '"it\\\'s \\d+"', '5', '12345678901234567890', '"' + 'long string ' * 12 + '"', 'sym' * 20, '1.5', '"str"', '"a b(c)"', 'sym', '+', '"~1"', 'imperative', '0', '0.0', '"x : y"', '"a/b"',
           '"# c"', 'http', "d'", '1,000', '^q', '"\\\\"', '-1', '1e3', 'mod', 'u\u2028w', '"t\u0085u"']
-AMR_ROLES = [':ARG0', ':ARG1', ':ARG2', ':mod', ':domain', ':op1', ':op2', ':op10', ':polarity', ':quant', ':time',
+AMR_ROLES = [':Consist', ':PREP-out', ':MOD', ':Location', ':TOP', ':prep-on', ':prep-out-of', ':ARG0', ':ARG1', ':ARG2', ':mod', ':domain', ':op1', ':op2', ':op10', ':polarity', ':quant', ':time',
              ':location', ':part', ':name', ':consist-of', ':prep-on-behalf-of', ':poss', ':wiki', ':subset',
              ':accompanier', ':beneficiary', ':age', ':foo', ':', ':snt2', ':value', ':li', ':cause']
 MINI_ROLES = [':ARG0', ':ARG1', ':accompanier', ':domain', ':consist-of', ':mod', ':op1', ':op12', ':foo', ':']
@@ -121,15 +121,19 @@ def wf_trees(draw, spec, max_nodes=8, aligned=True, inverted=True, noconcept=Tru
                 if inverted and r in inv and chance(draw, 1, 8):
                     r = inv[r]          # inverted attribute: stays as written
                 cst = pick(draw, consts)
+                if chance(draw, 1, 25):
+                    cst = pick(draw, vs) + pick(draw, ['\xa0', '\u2007', '\u200b'])     # a constant that only differs from a variable by a non-ASCII blank
                 if cst in vset:
                     continue
                 if claim(var, r, cst, False):
-                    branches.append([r + aln(), cst + aln()])
+                    a1 = aln()
+                    branches.append([r + a1, cst + (a1 if a1 and chance(draw, 1, 3) else aln())])
             elif kind == 'reent' and reent:
                 tgt = pick(draw, vs)
                 r = edge_role(var, tgt)
                 if r is not None:
-                    branches.append([r + aln(), tgt + aln()])
+                    a1 = aln()
+                    branches.append([r + a1, tgt + (a1 if a1 and chance(draw, 1, 3) else aln())])
             elif kind == 'miss' and missing:
                 r = pick(draw, fwd)
                 if claim(var, r, None, False):
@@ -196,7 +200,7 @@ def reify_in_tree(draw, j, table, prob=(1, 2), tail=False):
 
 # ---- arbitrary (not necessarily well-formed) trees -----------------------------------------------------------
 
-WILD_ROLES = [':instance', ':r\xa0', ':ARG0\u3000', ':ARG0', ':ARG1', ':r', ':', ':r-of', ':ARG0-of', ':ARG0-of-of', ':-of', ':mod', ':domain-of', ':op1',
+WILD_ROLES = [':consist', ':prep-out', ':prep-on-behalf', ':made', ':out', ':part', ':member', ':instance-of', ':Consist-of', ':ARG0-OF', ':instance', ':r\xa0', ':ARG0\u3000', ':ARG0', ':ARG1', ':r', ':', ':r-of', ':ARG0-of', ':ARG0-of-of', ':-of', ':mod', ':domain-of', ':op1',
               ':consist-of', ':consist-of-of', ':a.b', ':\u00e9', ':x,y', ':^', ':R#', ':1', ':TOP']
 
 
@@ -275,7 +279,7 @@ def any_trees(draw, max_nodes=7, canonical_alignments=False, unicode=True, depth
 
 # ---- metadata -------------------------------------------------------------------------------------------------
 
-_meta_key = st.text(alphabet=st.sampled_from(list('abkZ09_.-')), max_size=5)
+_meta_key = st.text(alphabet=st.sampled_from(list('abkZ09_.-') + ['\t', '\u00e9', ':']), max_size=5).filter(lambda k: '::' not in k and not k.endswith(':') and not k.startswith(':') and not k[-1:].isspace())
 _meta_chars = st.one_of(
     st.sampled_from(list('ab 01;()"#:/~,.')),
     st.sampled_from(['\xa0', '\u3000', '\u2028', '\u2029', '\x85', '\x1c', '\x0b', '\x0c', '\t']),
@@ -284,20 +288,23 @@ _meta_chars = st.one_of(
 
 
 def _valid_value(v):
-    return '::' not in v and (v == '' or not (v[0].isspace() or v[-1].isspace())) and not v.endswith(':')
+    return '::' not in v and (v == '' or not v[-1].isspace()) and not v.endswith(':')
 
 
 @st.composite
 def metadata(draw, max_keys=3):
-    """key -> value, exactly the image of the comment scanner: value without '::', LF/CR and without leading or
-    trailing str.isspace() characters; value does not end in ':' (it would fuse with a following '::')."""
+    """key -> value, exactly the image of the comment scanner: value without '::', LF/CR and without
+    trailing str.isspace() characters (leading blanks are part of the value); value does not end in ':' (it would fuse with a following '::')."""
     out = {}
     for _ in range(draw(st.integers(0, max_keys))):
         k = draw(_meta_key)
         v = draw(st.text(alphabet=_meta_chars, max_size=12))
-        v = v.strip()
+        v = v.rstrip() if chance(draw, 1, 4) else v.strip()       # leading blanks are content; trailing ones are not
+        if chance(draw, 1, 5):
+            v = pick(draw, [' ', '  ', '\t', ' \t ', '\xa0 ']) + v                     # everything after the FIRST blank is the value
+            v = v.rstrip()
         while v.endswith(':'):
-            v = v[:-1].strip()
+            v = v[:-1].rstrip()
         v = v.replace('::', ':;')
         if _valid_value(v):
             out[k] = v
